@@ -2,7 +2,13 @@
 // Drives the REAL writeScheduler / flow / processSettingInitialWindowSize of bfe_http2 through the
 // verif hook VerifC34 (zz_verif_c34.go) with scripted operation sequences.
 //
-// op tokens (joined by ';'):  o<id>  d<id>:<len>:<end>  h<id>:<end>  c  t  w<id>:<inc>  i<val>  m<val>  f<id>
+// op tokens (joined by ';'):  o<id> (open) e<id> (open, request already ended)  d<id>:<len>:<end>  h<id>:<end>  c
+//
+//	t (the writer becomes free: real scheduleFrameWrite; frames with END_STREAM go through the real wroteFrame,
+//	   which closes/resets the stream and schedules the next frame: the token is the chain "F1+F2+..")
+//	w<id>:<inc> (real processWindowUpdate, resetStream on stream error)  i<val>  m<val>
+//	f<id> (client RST_STREAM: real processResetStream -> closeStream)
+//
 // result: one token per executed op, then "|conn=..|id=win,..|z=..|q=ids"  (or "|dead" after a connection error)
 package main
 
@@ -36,6 +42,7 @@ func nums(s string) ([]uint64, bool) {
 
 func exec(op string) string {
 	v := bfe_http2.NewVerifC34()
+	defer v.Close()
 	var toks []string
 	msg := 0
 	dead := false
@@ -49,24 +56,25 @@ func exec(op string) string {
 			continue
 		}
 		if t == "t" {
-			f, ok := v.Take()
-			switch {
-			case !ok:
-				toks = append(toks, "-")
-			case f.Kind == "C":
-				toks = append(toks, "C")
-			case f.Kind == "H":
-				toks = append(toks, fmt.Sprintf("H%d:%s", f.ID, b01(f.End)))
-			case f.Kind == "Z":
-				toks = append(toks, fmt.Sprintf("Z%d:%s", f.ID, b01(f.End)))
-			case f.Kind == "D":
-				toks = append(toks, fmt.Sprintf("D%d:%d:%d:%d:%s:%s", f.ID, f.Msg, f.Off, f.Len, b01(f.End), b01(f.Done)))
-			default:
-				toks = append(toks, "X"+f.Kind)
+			var parts []string
+			for _, f := range v.TakeChain() {
+				switch f.Kind {
+				case "C":
+					parts = append(parts, "C")
+				case "H":
+					parts = append(parts, fmt.Sprintf("H%d:%s", f.ID, b01(f.End)))
+				case "Z":
+					parts = append(parts, fmt.Sprintf("Z%d:%s", f.ID, b01(f.End)))
+				case "D":
+					parts = append(parts, fmt.Sprintf("D%d:%d:%d:%d:%s:%s", f.ID, f.Msg, f.Off, f.Len, b01(f.End), b01(f.Done)))
+				default:
+					parts = append(parts, "X"+f.Kind)
+				}
 			}
-			// wroteFrame: a frame with END_STREAM closes the stream (closeStream -> forgetStream)
-			if ok && f.End && (f.Kind == "H" || f.Kind == "Z" || f.Kind == "D") {
-				v.Forget(f.ID)
+			if len(parts) == 0 {
+				toks = append(toks, "-")
+			} else {
+				toks = append(toks, strings.Join(parts, "+"))
 			}
 			continue
 		}
@@ -85,7 +93,9 @@ func exec(op string) string {
 		}
 		switch {
 		case t[0] == 'o' && len(a) == 1:
-			toks = append(toks, pm(v.Open(uint32(a[0]))))
+			toks = append(toks, pm(v.Open(uint32(a[0]), false)))
+		case t[0] == 'e' && len(a) == 1:
+			toks = append(toks, pm(v.Open(uint32(a[0]), true)))
 		case t[0] == 'd' && len(a) == 3:
 			if msg > 255 {
 				return "bad-op"
@@ -111,7 +121,7 @@ func exec(op string) string {
 			v.MaxFrameSize(uint32(a[0]))
 			toks = append(toks, "+")
 		case t[0] == 'f' && len(a) == 1:
-			toks = append(toks, pm(v.Forget(uint32(a[0]))))
+			toks = append(toks, pm(v.Reset(uint32(a[0]))))
 		default:
 			return "bad-op"
 		}
@@ -121,7 +131,11 @@ func exec(op string) string {
 		return res + "|dead"
 	}
 	conn, ws := v.Windows()
-	z, ids := v.Queued()
+	z, ctr, ids := v.Queued()
+	zs := fmt.Sprint(z)
+	if ctr != z {
+		zs = fmt.Sprintf("%d/%d", z, ctr)
+	}
 	var sw, sq []string
 	for _, p := range ws {
 		sw = append(sw, fmt.Sprintf("%d=%d", p[0], p[1]))
@@ -135,7 +149,7 @@ func exec(op string) string {
 		}
 		return s
 	}
-	return fmt.Sprintf("%s|conn=%d|%s|z=%d|q=%s", res, conn, od(strings.Join(sw, ",")), z, od(strings.Join(sq, ",")))
+	return fmt.Sprintf("%s|conn=%d|%s|z=%s|q=%s", res, conn, od(strings.Join(sw, ",")), zs, od(strings.Join(sq, ",")))
 }
 
 // ---- generator -------------------------------------------------------------------------------
@@ -166,7 +180,7 @@ func gen(r *vh.Rand) string {
 		switch {
 		case k < 12 || len(live) == 0:
 			if len(live) < 6 {
-				add("o%d", nextID)
+				add("%s%d", r.Pick("o", "o", "e"), nextID)
 				live = append(live, &gstream{id: nextID})
 				nextID += 2
 			}
